@@ -12,6 +12,18 @@ NOTES = ("Exit protocol of every command: 0 = held on everything explored, 1 = v
          "VERIF_SEED selects the PRNG stream; runs are a pure function of (code, seed, tier). "
          "known_findings.json lists genuine defects (known/fixed).")
 
+claim("C08",
+      technique="model-based stateful proptest: every proposal the SQLite wallet returns is checked note by note against the model ledger, a model lock table and a model pending-transaction table",
+      text=("chainsim wallet histories (receipts/spends in three pools and all key scopes, partial scans, rewinds/reorgs) followed by 6-16 proposal ops: "
+            "propose_transfer / propose_standard_transfer_to_address / propose_send_max_transfer / ZIP 318 canonical denominations with generated payment "
+            "requests, amounts around the selectable total, ConfirmationsPolicy, SpendPolicy, LockedInputPolicy over 3 owners, lock_inputs, chain advance past "
+            "lock and transaction expiry, unlock/clear, a spend reorganised away (orphaned unexpired spender), and create_proposed_transactions+store of a pending "
+            "transaction. Each selected note must belong to the account, be mined on the current scanned branch, unspent (mined, orphaned-unexpired or pending "
+            "spender), deep enough for the policy, not locked by a non-admitted owner, in a permitted pool, witnessable at the step anchor with a witness hashing "
+            "to the true root, selected once; every step must balance exactly; a proposal never exceeds all unspent mined value; get_locked_outputs equals the "
+            "model lock table after every op."),
+      note="Not reached: transparent inputs / propose_shielding (the chain model has no transparent outputs); pending transactions with Orchard/Ironwood inputs (need real proving keys). Liveness (a coverable request yields a proposal) is not in the statement and only counted.")
+
 claim("C09",
       technique="exhaustive boundary-lattice enumeration + seeded proptest pairs against an exact i128 reference",
       text=("Every constructor, parser, byte codec and operator impl of Zatoshis/ZatBalance is compared with exact "
